@@ -181,6 +181,7 @@ def run_impl(p):
         o["asarray"] = guarded(lambda: z(np.asarray(r)))
         o["len"] = guarded(lambda: int(len(r)))
         o["size"] = guarded(lambda: int(r.size))
+        o["ndim"] = guarded(lambda: int(r.ndim))
         o["shape"] = guarded(lambda: [int(x) for x in r.shape])
         o["dtype"] = guarded(lambda: str(r.dtype))
         o["starts"] = guarded(lambda: [int(x) for x in r.starts])
@@ -222,7 +223,7 @@ def oracle(p):
     if p.get("zeros"):
         arr = np.where(arr == 0, np.zeros(1, dtype=arr.dtype)[0], arr)
     o["to_array"] = canon(arr); o["asarray"] = canon(arr)
-    o["len"] = canon(n); o["size"] = canon(n); o["shape"] = canon([n])
+    o["len"] = canon(n); o["size"] = canon(n); o["shape"] = canon([n]); o["ndim"] = canon(1)
     o["dtype"] = {"k": "other", "v": repr(str(arr.dtype))}
     o["starts"] = canon(bounds[:-1]); o["ends"] = canon(bounds[1:])
     o["values"] = canon(arr[bounds[:-1]])
